@@ -6465,21 +6465,18 @@ impl<Front: SocketHandler> ConnectionH2<Front> {
                     let fully_completed =
                         stream.back_received_end_of_stream && stream.front.is_terminated();
                     if !fully_completed && !self.rst_sent.contains(&id) {
-                        let kawa = &mut self.zero;
-                        let mut frame = [0; 13];
-                        if let Ok((_, _size)) =
-                            serializer::gen_rst_stream(&mut frame, id, H2Error::Cancel)
-                        {
-                            let buf = kawa.storage.space();
-                            if buf.len() >= frame.len() {
-                                buf[..frame.len()].copy_from_slice(&frame);
-                                kawa.storage.fill(frame.len());
-                                incr!(names::h2::FRAMES_TX_RST_STREAM);
-                                count!(metric_for_rst_stream_sent(H2Error::Cancel), 1);
-                                self.readiness.arm_writable();
-                                self.rst_sent.insert(id);
-                            }
-                        }
+                        // Queue the frame for `flush_pending_control_frames`, which
+                        // serialises it under the `expect_write` protocol. It must not
+                        // be written into `self.zero` here: that buffer also receives
+                        // the next frame header read from this backend, which would be
+                        // appended to (and parsed after) the unsent RST_STREAM - a
+                        // connection error that fails every other stream multiplexed
+                        // on this backend connection.
+                        self.pending_rst_streams.push((id, H2Error::Cancel));
+                        incr!(names::h2::FRAMES_TX_RST_STREAM);
+                        count!(metric_for_rst_stream_sent(H2Error::Cancel), 1);
+                        self.readiness.arm_writable();
+                        self.rst_sent.insert(id);
                     }
                     // Retire the stream and invalidate expect_write/expect_read
                     // if they still reference this gid — the slot may be popped
